@@ -79,6 +79,19 @@ func twinMonitor(keys *Keys, h History, ref *Trace, r *rand.Rand) []Failure {
 		}
 	}
 	r.Shuffle(len(failing), func(i, j int) { failing[i], failing[j] = failing[j], failing[i] })
+	// a failed transaction can only leave a trace if something ran before the failure: transactions with several messages and
+	// transactions refused late in their handler (the per-block limit, the same-power test) come first; the rest in random order
+	risk := func(l loc) int {
+		o := ref.Blocks[l.b].TxOut[l.t]
+		switch {
+		case len(ref.Blocks[l.b].Spec.Txs[l.t].Msgs) > 1:
+			return 0
+		case o == "err 0 4" || strings.HasPrefix(o, "err 4 "): // poa.ErrUnsafePower; plain errors (same power, last validator)
+			return 1
+		}
+		return 2
+	}
+	sort.SliceStable(failing, func(i, j int) bool { return risk(failing[i]) < risk(failing[j]) })
 	if len(failing) > 3 {
 		failing = failing[:3]
 	}
